@@ -1,5 +1,7 @@
 import CalVerif.Prim.Wire
 import CalVerif.Model.XmlText
+import CalVerif.Model.XmlEscape
+import CalVerif.Spec.XmlText
 /-! Driver for C19: runs XML event lists through the text-reader models.
 
     request (one line; several requests may be joined by ` | `, the replies are joined the same way):
@@ -8,6 +10,8 @@ import CalVerif.Model.XmlText
       cell <t|-> <hex,hex,…|-> <ev>…      children of one <c t=…> (strings = table) → `ok str:<hex>` | `ok shared:<hex>` | `ok empty` | `ok other`
       fmla <ev>…                          formula text of one <c> (next_formula)    → `ok str:<hex> rest=<n>`
       odscell <ev>…                       get_datatype text path                    → `ok <hex> rest=<n>`
+      unescape <hex utf-8>                quick-xml escape::unescape                → `ok <hex>` | `err:<class>`
+      cdatasplit <hex>                    the writer's CDATA cut                    → `ok <hex> <hex> …`
       wide <hex>                          wide_str                                  → `ok <units as LE bytes hex> <str_len>`
     errors: `err:<class>` | `panic:<site>` | `fuel`
     event tokens: S<qname-hex>[,<key-hex>=<val-hex>]…  E<qname-hex>  M<qname-hex>[,…] (empty element: expanded to
@@ -100,6 +104,14 @@ def handleOne (ws : List String) : String :=
   | "odscell" :: evs =>
     match parseEvs evs with
     | some es => showRes (fun (s, rest) => hx s ++ s!" rest={rest.length}") (odsCellText es)
+    | none => "bad-request"
+  | ["unescape", h] =>
+    match (hexOrEmpty h).bind fun b => String.fromUTF8? (ByteArray.mk b.toArray) with
+    | some str => showRes (fun r => hx (String.ofList r).toUTF8.toList) (XmlEscape.unescape str.toList)
+    | none => "bad-request"
+  | ["cdatasplit", h] =>
+    match hexOrEmpty h with
+    | some b => "ok " ++ Wire.joinSp ((cdataSplit b).map hx)
     | none => "bad-request"
   | ["wide", h] =>
     match Wire.bytesOfHex h with
